@@ -625,6 +625,8 @@ func main() {
 		var h History
 		if err := hlib.ReplayInput(opts.Replay, &h); err != nil {
 			fmt.Fprintln(os.Stderr, "replay:", err)
+			out.Close()
+			os.RemoveAll(workdir)
 			os.Exit(2)
 		}
 		runHistory(out, &h, workdir, 0, dump)
